@@ -176,6 +176,11 @@ def _looks_into_names(t: Term) -> List[str]:
 
 def check(model: Model, rep: Report, tier: str):
     rep.trust("spec: 'ALL' is the member of QubitChannel that names all channels")
+    from .common import single_definition_rule
+    with rep.isolated():
+        single_definition_rule(model, rep, "C19.I7", ("QubitChannel", "ChannelIdentifier"), "ChannelIdentifier")
+    with rep.isolated():
+        single_definition_rule(model, rep, "C19.I7", ("QubitIDObj", "EdgeIDObj"), "EdgeIDObj")
     with rep.isolated():
         _i1(model, rep)
     with rep.isolated():
@@ -209,9 +214,19 @@ def _i1(model: Model, rep: Report):
     fields = c.all_fields()
     ch_field = [n for n, f in fields.items() if ev.ann_class(f.annotation, f.owner.module) is qc]
     id_field = [n for n in fields if n not in ch_field]
+    extra = []
+    if len(id_field) > 1:
+        # further fields with a default (a label, a cache slot) are not part of the pair; they must not enter the relation (checked on the formula below)
+        extra = [n for n in id_field if fields[n].default is not None or fields[n].default_factory is not None or fields[n].init is False]
+        id_field = [n for n in id_field if n not in extra]
     if len(ch_field) != 1 or len(id_field) != 1:
         raise AnalysisError(f"ChannelIdentifier fields changed: {list(fields)}")
     chf, idf = ch_field[0], id_field[0]
+    # the relation is stated over (qubit, channel) PAIRS: constructed positionally, the first argument is the qubit and the second the channel
+    order = [n for n, f_ in fields.items() if f_.init is not False]
+    rep.check(order[:2] == [idf, chf], "C19.I1", "ChannelIdentifier[positional order]", c.loc, found=f"init fields in order {order}", required=f"({idf}, {chf}, ...)",
+              what=f"ChannelIdentifier(q, channel) no longer binds the channel: the positional parameters are {order}, so the second argument lands in '{order[1] if len(order) > 1 else '?'}' "
+                   f"and the channel keeps its default -- identifiers of different channels of a qubit compare equal", detail="positional")
     own_eq = c.explicit_dunder("__eq__")
     if own_eq is None:
         formula, loc, construct = _dataclass_eq_formula(ev, c), c.loc, "ChannelIdentifier.__eq__(dataclass-generated)"
